@@ -14,7 +14,7 @@ Fixpoint wto_mem (x : nat) (w : list comp) : bool :=
 Definition bwd_run (p : prog) (wrev : wto) (exit_block delay desc fuel : nat) (fresh : var) (good : bool)
            (finv : nat -> env) (final : env) : option (nat -> env) :=
   match run env itv_ops (fun n post => bwd_block fresh good (p_block p n) (finv n) post)
-            (p_succs p) (nest_of wrev) exit_block delay desc false (fun _ => None) fuel wrev final with
+            (p_succs p) (nest_of wrev) exit_block delay desc false (fun _ => None) final fuel wrev with
   | None => None
   | Some e => Some (fun n => if wto_mem n wrev then e_post env e n else e_top)
   end.
